@@ -291,6 +291,11 @@ func (x *Exec) loadAddr(st *State, a *Addr) Val {
 			out.L[i] = t
 		}
 	case AGlobal:
+		if a.Off == 0 && isErrorType(a.T) && x.E.isSentinel(a.Key) {
+			id := x.E.sentinelID(a.Key)
+			out.L[0], out.L[1] = IntC(int64(900000+id)), IntC(int64(-5000-id))
+			return out
+		}
 		all := x.tc.leaves(a.contT)
 		for i := range ls {
 			g := x.heapArr(st, hkey("G", a.Key, a.Off+i), all[a.Off+i].S)
